@@ -17,6 +17,7 @@ CONSTANTS
   Burst = 1
   BroadcastDedup = FALSE
   FIX_PruneEmpty = TRUE
+  FIX_Recheck = TRUE
   AllowLate = TRUE
   TrackEvicted = FALSE
   AtomicCheck = FALSE
